@@ -321,7 +321,7 @@ def _reserved_source(ctx) -> None:
                     if e.term[1][2] == "add" and len(e.term[2]) == 1:
                         adds.append(e)
                     elif e.term[1][2] == "update" and len(e.term[2]) == 1 and e.term[2][0][0] == "obj" \
-                            and it.objs[e.term[2][0][1]].kind in ("set", "setcomp") and not it.objs[e.term[2][0][1]].init:
+                            and it.objs[e.term[2][0][1]].kind in ("set", "setcomp", "genexp", "listcomp", "list") and not it.objs[e.term[2][0][1]].init:
                         todo.append(e.term[2][0])
                     else:
                         problems.append(f"`{show(e.term, it)[:50]}` changes the reserved set other than by add(name)")
